@@ -2,6 +2,7 @@
 # Runs every registered check once (tier from $1, default quick) and reports exit codes.
 cd "$(dirname "$0")"
 tier=${1:-quick}
+mkdir -p work
 props=$(python3 -c "import json;print(' '.join(c['property_id'] for c in json.load(open('MANIFEST.json'))['checks']))")
 rc=0
 for p in $props; do
